@@ -8,7 +8,8 @@ STREAM = {"name": "conc", "harness": "conc", "driver": "conc", "overlay": True, 
 
 KIND_TEXT = {"nonlin": "outcome (results + final tree) equal to no sequential order of the same calls",
              "deadlock": "every live goroutine waits for a held lock (decided by the scheduler, no timeout)",
-             "panic": "a call panicked under this interleaving"}
+             "panic": "a call panicked under this interleaving",
+             "tempdup": "CreateTemp/MkdirTemp handed the same name to two callers"}
 
 
 def load_findings(ctx, name):
@@ -68,6 +69,7 @@ def run(ctx, kinds):
     for kid in sorted(reproduced):
         if kid in kf_by_id and (kf_by_id[kid].get("kind", "nonlin") in kinds):
             ctx.known_finding(kid, kf_by_id[kid]["what"])
+    unclassified.sort(key=lambda kf: (sum(len(t) for t in kf[1]['calls']), kf[1]['steps'], kf[1]['sig']))
     for kid, f in unclassified[:3]:
         why = "matches no listed known-finding class" if kid is None else "falls in class %s, which is not listed as an open known finding" % kid
         ctx.violation("conc-" + f["kind"], "%s: %s; %s [%s | %d executions]" % (f["fs"], KIND_TEXT[f["kind"]], why, f["program"], f["count"]),
